@@ -28,8 +28,10 @@ def judge(cases):
             if not same:
                 if c["data_transferred"]:
                     f.append("data was transferred by a sync session between clusters %d and %d" % (c["client_cluster"], c["server_cluster"]))
-                if "different cluster" not in c["outcome"]:
-                    f.append("a sync session between clusters %d and %d was not refused with the explicit rejection (outcome %s)" % (c["client_cluster"], c["server_cluster"], c["outcome"]))
+                # the server answers with the DifferentCluster rejection and closes; a client still writing its handshake may
+                # see the closed stream before it reads the rejection - either way the session must end in an error
+                if not c["outcome"].startswith("err:"):
+                    f.append("a sync session between clusters %d and %d was not refused (outcome %s)" % (c["client_cluster"], c["server_cluster"], c["outcome"]))
             else:
                 if not c["data_transferred"]:
                     f.append("a sync session inside cluster %d transferred nothing (outcome %s)" % (c["client_cluster"], c["outcome"]))
